@@ -189,7 +189,8 @@ class Renderer(object):
         r, f = self.rng, self.f
         s = b" "
         if f.get("tabs_cr") and r.random() < 0.4:
-            s = r.choice([b"\t", b"  ", b" \t ", b"\r ", b" \r"])
+            # (every character the C locale's isspace() knows: also form feed - the ^L page separator - and vertical tab)
+            s = r.choice([b"\t", b"  ", b" \t ", b"\r ", b" \r", b"\t", b"  ", b" \t ", b"\r ", b" \r", b"\x0c", b" \x0b", b"\x0b\x0c "])
         if f.get("c_comments") and r.random() < 0.3:
             if r.random() < 0.3:
                 s = b""        # glued to the token before it
